@@ -69,6 +69,12 @@ Section Inventory.
   (* decode into a secure_buffer: the temporary vector is zeroed before release; base36's work vector since 93db630 *)
   Definition rel_decode_secure (decoded : list N) (is_base36 : bool) : list rel :=
     (if is_base36 then [mk (if fixed then RWiped else RRaw) 16 decoded] else []) ++ [mk RWiped 17 decoded; mk RSecure 18 decoded].
+
+  (* secret_string::with_plaintext / reveal_copy (secret_string.hpp:106-158): the decrypted copy is a plain std::vector, wiped explicitly
+     before it is released on normal return and - since 65ef260 (here: `fixed`) - on EVERY exception leaving the callback, whatever its type;
+     set / rotate_nonce / clear / move work on the ciphertext and on secure buffers only *)
+  Definition rel_secret_reveal (cb_throws : bool) (plain : list N) : list rel :=
+    [mk (if cb_throws && negb fixed then RRaw else RWiped) 19 plain].
 End Inventory.
 
 Definition all_released_zero (rs : list rel) : bool := forallb (fun r => forallb (N.eqb 0) (released_bytes r)) rs.
